@@ -3,6 +3,7 @@
    The statements are about C20/Model.v, which assembles gen/WinHelp.v (regenerated
    from filters.py and util.py on every run) and lib/C20_Numpy.v. *)
 From Coq Require Import Reals ZArith List.
+Set Warnings "-ambiguous-paths".
 From Coquelicot Require Import Complex.
 From Verif Require Import lib.C20_Numpy gen.WinHelp C20.Model
      C20.ProofsWin C20.ProofsGamma C20.ProofsShift C20.ProofsGauss C20.ProofsAcc.
